@@ -104,6 +104,53 @@ func init() {
 		sendEmitExpect(sp, "exp_rset", "Client.Reset")
 		sendEmitExpect(sp, "exp_noop", "Client.Noop")
 		sendEmitExpect(sp, "exp_quit", "Client.Quit")
+		sendEmitExpect(sp, "exp_starttls", "Client.StartTLS")
+
+		// ehlo(): after the error check of the command the extension map is assigned unconditionally: the
+		// assignment "c.ext = <ident>" is a top-level statement of the body and no statement before it (other than
+		// the first "if err != nil { return err }") contains a return
+		replaces, ehloLocated := false, false
+		if fn, ok := sp.funcs["Client.ehlo"]; ok && fn.Body != nil {
+			ehloLocated = true
+			errChecks := 0
+			for _, st := range fn.Body.List {
+				if as, ok := st.(*ast.AssignStmt); ok && len(as.Lhs) == 1 && sp.src(as.Lhs[0]) == "c.ext" && as.Tok == token.ASSIGN {
+					if _, isIdent := as.Rhs[0].(*ast.Ident); isIdent && sp.src(as.Rhs[0]) != "nil" {
+						replaces = true
+					}
+					break
+				}
+				hasReturn := false
+				ast.Inspect(st, func(x ast.Node) bool {
+					if _, ok := x.(*ast.ReturnStmt); ok {
+						hasReturn = true
+					}
+					return true
+				})
+				if hasReturn {
+					if is, ok := st.(*ast.IfStmt); ok && errChecks == 0 && sp.src(is.Cond) == "err != nil" {
+						errChecks++
+						continue
+					}
+					break // an early return before the assignment
+				}
+			}
+		}
+		if !ehloLocated {
+			untranslatable = append(untranslatable, "ehlo_replaces_ext")
+		}
+		emit("(* smtp_ehlo.go ehlo(): c.ext is assigned unconditionally after an accepted EHLO (no early return before it) *)\nDefinition ehlo_replaces_ext : bool := %v.\n", replaces)
+
+		// StartTLS ends with "return c.ehlo()": the extension map of the plain-text session is replaced
+		says := false
+		if fn, ok := sp.funcs["Client.StartTLS"]; ok && fn.Body != nil && len(fn.Body.List) > 0 {
+			if rs, ok := fn.Body.List[len(fn.Body.List)-1].(*ast.ReturnStmt); ok && len(rs.Results) == 1 && sp.src(rs.Results[0]) == "c.ehlo()" {
+				says = true
+			}
+		} else {
+			untranslatable = append(untranslatable, "starttls_says_ehlo")
+		}
+		emit("(* smtp.go StartTLS: the last statement is return c.ehlo() *)\nDefinition starttls_says_ehlo : bool := %v.\n", says)
 
 		// recovery actions of sendSingleMsg
 		flags := map[string]bool{}
